@@ -120,10 +120,16 @@ func c16Run(precreate bool, L int) {
 			cctx, commit := ctx.CacheContext()
 			snap := bank.Snapshot()
 			var err error
+			// the transaction may be signed by a fee grantee of the creator (the ante
+			// decorator accepts that); the creator remains the acting principal
+			meta := c16Meta(me)
+			if (L < 3 || step == L-1) && sym.Bool("signed-by-grantee") {
+				meta.Signers = []string{who[1-p].String()}
+			}
 			if isMint {
-				_, err = srv.Mint(cctx, &types.MsgMint{Amount: coin, Metadata: c16Meta(me)})
+				_, err = srv.Mint(cctx, &types.MsgMint{Amount: coin, Metadata: meta})
 			} else {
-				_, err = srv.Burn(cctx, &types.MsgBurn{Amount: coin, Metadata: c16Meta(me)})
+				_, err = srv.Burn(cctx, &types.MsgBurn{Amount: coin, Metadata: meta})
 			}
 			if err != nil {
 				sym.Reach("mintburn-rejected")
